@@ -112,10 +112,15 @@ def unquote(
     unsafe=None,
     normalize_space=False,
     escape_dangling=False,
+    escape_raw=None,
 ):
     if "%" not in string:
         if normalize_space:
-            return string.replace(" ", "%20")
+            string = string.replace(" ", "%20")
+
+        if escape_raw is not None:
+            for char in escape_raw:
+                string = string.replace(char, quote(char, safe=""))
 
         return string
 
@@ -131,6 +136,12 @@ def unquote(
     if normalize_space:
         q = q.replace(" ", "%20")
 
+    # NOTE: characters that stay escaped can sometimes also be found raw (e.g. a
+    # second "@" in the userinfo), we escape them to keep a single spelling
+    if escape_raw is not None:
+        for char in escape_raw:
+            q = q.replace(char, quote(char, safe=""))
+
     return q
 
 
@@ -141,6 +152,9 @@ def unquote(
 # and every character delimiting the component (or an enclosing one) must
 # stay escaped else the url would not parse the same way anymore.
 UNSAFE_FOR_AUTH_ITEM = b" @:/?#%"
+# NOTE: only the first "=" of a query item is a delimiter, so it is harmless
+# within a query value
+UNSAFE_FOR_QUERY_VALUE = b" &#%"
 UNSAFE_FOR_PATH = b" /?#%"
 UNSAFE_FOR_QUERY_ITEM = b" &=#%"
 UNSAFE_FOR_FRAGMENT = b" %"
@@ -151,6 +165,15 @@ safely_unquote_auth_item = partial(
     only_printable=True,
     normalize_space=True,
     escape_dangling=True,
+    escape_raw="@",
+    unsafe=UNSAFE_FOR_AUTH_ITEM,
+)
+safely_unquote_password = partial(
+    unquote,
+    only_printable=True,
+    normalize_space=True,
+    escape_dangling=True,
+    escape_raw="@:",
     unsafe=UNSAFE_FOR_AUTH_ITEM,
 )
 safely_unquote_path = partial(
@@ -167,6 +190,13 @@ safely_unquote_query_item = partial(
     escape_dangling=True,
     unsafe=UNSAFE_FOR_QUERY_ITEM,
 )
+safely_unquote_query_value = partial(
+    unquote,
+    only_printable=True,
+    normalize_space=True,
+    escape_dangling=True,
+    unsafe=UNSAFE_FOR_QUERY_VALUE,
+)
 safely_unquote_fragment = partial(
     unquote,
     only_printable=True,
@@ -180,7 +210,7 @@ def safely_unquote_qsl(qsl):
     return [
         (
             safely_unquote_query_item(key),
-            safely_unquote_query_item(value) if value is not None else None,
+            safely_unquote_query_value(value) if value is not None else None,
         )
         for key, value in qsl
     ]
@@ -225,6 +255,7 @@ __all__ = [
     "safely_unquote_auth",
     "safely_unquote_path",
     "safely_unquote_query_item",
+    "safely_unquote_query_value",
     "safely_unquote_fragment",
     "safely_unquote_qsl",
     "safely_quote",
